@@ -30,7 +30,9 @@ struct Spec {
    std::vector<std::string> inItems;          // WebSocket without slave: the payloads carried by inStream, in order
    std::vector<uint32> inBoundaries;          // offset in inStream at which unit i (Message / frame) is complete
    bool sparse[2]; std::vector<uint32> targets[2];   // sparse mode (long streams): only these window targets are explored
-   Spec() { sparse[0] = sparse[1] = false; }
+   uint32 hsEnd[2];                           // WebSocket endpoints: where the HTTP handshake text ends in refOut / inStream (0 = not applicable)
+   Spec() { sparse[0] = sparse[1] = false; hsEnd[0] = hsEnd[1] = 0; }
+   bool AtRest(int dir, uint32 n) const { return n == 0 || n == hsEnd[dir] || n == B(dir); }
    uint32 B(int dir) const { return (uint32)((dir == D_OUT) ? refOut.size() : inStream.size()); }
 };
 
@@ -188,8 +190,11 @@ public:
       budget = -1; first = -1; pol = POLICY_ALL;
       // long streams are explored sparsely: irregular moves start only at a selected offset (else every offset would be reached step by step)
       const bool onTarget = !sp.sparse[o.dir] || n == 0 || std::binary_search(sp.targets[o.dir].begin(), sp.targets[o.dir].end(), n);
-      const bool irregular = (o.M != 0) || (o.policy == P_REL && o.arg > 0) || o.policy == P_FIRST || o.policy == P_FIRST_THEN_ALL;
+      const bool irregular = !(o.policy == P_TARGET || o.policy == P_SPARSE || (o.policy == P_REL && o.arg == 0 && o.M == 0));
       if (irregular && !onTarget) return false;
+      // WebSocket endpoints: the two directions are explored as a full product while either is inside its handshake text (that is where
+      // input enables output); once a direction is in its frame phase it moves only while the other direction rests at 0 / handshake end / end
+      if (sp.hsEnd[o.dir] && n >= sp.hsEnd[o.dir]) { const int od = 1 - o.dir; if (!sp.AtRest(od, od == D_OUT ? nOut : nIn)) return false; }
       switch (o.policy) {
       case P_TARGET: if (o.arg <= n) return false; budget = (long)(o.arg - n); break;
       case P_SPARSE: { const uint32 t = sp.targets[o.dir][o.arg]; if (t <= n || t > B) return false; budget = (long)(t - n); break; }
@@ -560,12 +565,13 @@ template <class T, class FPrep, class FSer, class FDes> static bool PrepareAll(s
 }
 
 // window targets for long streams: around every unit boundary (and the gateway's internal edges relative to each unit start)
-static void SparseTargets(const std::vector<uint32> & bounds, uint32 B, std::vector<uint32> & out, bool ws = false)
+static void SparseTargets(const std::vector<uint32> & bounds, uint32 B, std::vector<uint32> & out, int ws = 0)
 {
    std::set<uint32> t; std::vector<uint32> starts; starts.push_back(0); for (size_t i = 0; i < bounds.size(); i++) starts.push_back(bounds[i]);
    static const int relBin[] = {-3, -2, -1, 0, 1, 2, 3, 4, 5, 6, 7, 8, 9, 10, 11, 13, 14, 15, 16, 17, 2039, 2040, 2041, 2047, 2048, 2049, 2055, 2056, 2057};
    static const int relWs[] = {-2, -1, 0, 1, 2, 3, 4, 5, 6, 7, 8, 9, 10, 11, 13, 14, 15};   // frame headers are 2..14 bytes, the slave's Message header 8 more
-   const int * rel = ws ? relWs : relBin; const size_t nrel = ws ? sizeof(relWs) / sizeof(int) : sizeof(relBin) / sizeof(int);
+   static const int relWsOut[] = {-1, 0, 1, 2, 7};   // the output side only keeps a cursor into its text / frame buffer
+   const int * rel = (ws == 2) ? relWsOut : ws ? relWs : relBin; const size_t nrel = (ws == 2) ? sizeof(relWsOut) / sizeof(int) : ws ? sizeof(relWs) / sizeof(int) : sizeof(relBin) / sizeof(int);
    for (size_t i = 0; i < starts.size(); i++) for (size_t k = 0; k < nrel; k++) { const long v = (long)starts[i] + rel[k]; if (v >= 1 && v <= (long)B) t.insert((uint32)v); }
    t.insert(B); out.assign(t.begin(), t.end());
 }
@@ -749,7 +755,7 @@ struct WsCutsFamily {
       for (int s = 0; s < 4; s++) {
          const std::string & st = (s < 2) ? cs : w.sRef;
          if (p.len[s] <= 2000) { for (uint32 x = 1; x < p.len[s]; x++) p.cutPos[s].push_back(x); for (uint32 x = 0; x < p.len[s]; x++) p.blkPos[s].push_back(x); }
-         else { std::vector<uint32> ends, t; const size_t h = st.find("\r\n\r\n"); WsFrameEnds(st, h + 4, ends); SparseTargets(WithHeaderEnd(st, ends), p.len[s], t, true); for (size_t i = 0; i < t.size(); i++) if (t[i] < p.len[s]) { p.cutPos[s].push_back(t[i]); p.blkPos[s].push_back(t[i]); } p.blkPos[s].insert(p.blkPos[s].begin(), 0); }
+         else { std::vector<uint32> ends, t; const size_t h = st.find("\r\n\r\n"); WsFrameEnds(st, h + 4, ends); SparseTargets(WithHeaderEnd(st, ends), p.len[s], t, 1); for (size_t i = 0; i < t.size(); i++) if (t[i] < p.len[s]) { p.cutPos[s].push_back(t[i]); p.blkPos[s].push_back(t[i]); } p.blkPos[s].insert(p.blkPos[s].begin(), 0); }
       }
       p.nU = (std::max(cl, sl) <= 2000) ? std::max(cl, sl) : 64; p.total = p.nU;
       for (int s = 0; s < 4; s++) { p.per[s] = p.blkPos[s].size(); for (int k = 1; k <= K; k++) p.per[s] += Choose(p.cutPos[s].size(), k); p.total += p.per[s]; }
@@ -845,11 +851,11 @@ static bool BuildPlan(Plan & P, const verif::Args & args, verif::Result & res, s
       if (w.s2cOk) {   // client endpoint: emits cRef, reads the server's stream
          Spec c; c.name = "client endpoint: " + w.name; c.kind = w.K(true); c.out = w.cOut; c.refOut = w.cRef; c.inStream = w.sRef; c.inFlats = w.sFlats; c.inItems = w.sItems; c.inBoundaries = w.sBounds;
          std::vector<uint32> cEnds; WsFrameEnds(w.cRef, w.cRef.find("\r\n\r\n") + 4, cEnds);
-         c.sparse[0] = c.sparse[1] = true; SparseTargets(WithHeaderEnd(c.refOut, cEnds), c.B(D_OUT), c.targets[0], true); SparseTargets(WithHeaderEnd(c.inStream, c.inBoundaries), c.B(D_IN), c.targets[1], true); P.mWs.specs.push_back(c);
+         c.sparse[0] = c.sparse[1] = true; SparseTargets(WithHeaderEnd(c.refOut, cEnds), c.B(D_OUT), c.targets[0], 2); SparseTargets(WithHeaderEnd(c.inStream, c.inBoundaries), c.B(D_IN), c.targets[1], 1); c.hsEnd[0] = (uint32)c.refOut.find("\r\n\r\n") + 4; c.hsEnd[1] = (uint32)c.inStream.find("\r\n\r\n") + 4; P.mWs.specs.push_back(c);
       }
       if (w.cRfcOk) {  // server endpoint: reads the client's stream as RFC 6455 prescribes it, emits sRef
          Spec s; s.name = "server endpoint (input = RFC 6455 conforming client stream): " + w.name; s.kind = w.K(false); s.out = w.sOut; s.refOut = w.sRef; s.inStream = w.cRfc; s.inFlats = w.cFlats; s.inItems = w.cItems; s.inBoundaries = w.cBounds;
-         s.sparse[0] = s.sparse[1] = true; SparseTargets(WithHeaderEnd(s.refOut, w.sBounds), s.B(D_OUT), s.targets[0], true); SparseTargets(WithHeaderEnd(s.inStream, s.inBoundaries), s.B(D_IN), s.targets[1], true); P.mWs.specs.push_back(s);
+         s.sparse[0] = s.sparse[1] = true; SparseTargets(WithHeaderEnd(s.refOut, w.sBounds), s.B(D_OUT), s.targets[0], 2); SparseTargets(WithHeaderEnd(s.inStream, s.inBoundaries), s.B(D_IN), s.targets[1], 1); s.hsEnd[0] = (uint32)s.refOut.find("\r\n\r\n") + 4; s.hsEnd[1] = (uint32)s.inStream.find("\r\n\r\n") + 4; P.mWs.specs.push_back(s);
       }
    }
    // ---- hash-free families
